@@ -317,17 +317,52 @@ func c32reap(c *core.Ctx) {
 			fn = cl
 		}
 	}
+	// the reap decision in a private single-caller helper of the closure: the
+	// helper's parameters stand for the arguments of its only call
+	var host *ssa.Function
+	var via ssa.Instruction
+	bind := map[ssa.Value]ssa.Value{}
+	if fn == nil {
+		for _, cl := range obs.AnonFuncs {
+			for _, ci := range an.AllCalls(cl, false) {
+				g := ci.Common().StaticCallee()
+				if g == nil || an.StepPolicy == nil || !an.StepPolicy(g) || len(an.CallsTo(g, false, "store.Store.remove")) == 0 {
+					continue
+				}
+				fn, host, via = cl, g, ci.(ssa.Instruction)
+				args := ci.Common().Args
+				for i, p := range g.Params {
+					if i < len(args) {
+						bind[p] = args[i]
+					}
+				}
+			}
+		}
+	}
 	if fn == nil {
 		c.Unk("C32.c", "DECIDE", "observe:reap", c.P.Pos(obs.Pos()), "the observer closure that reaps nodes was not found")
 		return
 	}
 	c.Touch(fn)
+	rz := func(v ssa.Value) ssa.Value {
+		if a, ok := bind[v]; ok {
+			return a
+		}
+		return v
+	}
 	// gates for remove: cut checks under assumptions
-	rm := an.CallsTo(fn, false, "store.Store.remove")[0].(ssa.Instruction)
-	isRR := func(v ssa.Value) bool { return callResult(v, 0, "store.Servers.IsReadReplica") }
-	found := func(v ssa.Value) bool { return callResult(v, 1, "store.Servers.IsReadReplica") }
+	var rm ssa.Instruction
+	if host != nil {
+		c.Touch(host)
+		rm = an.CallsTo(host, false, "store.Store.remove")[0].(ssa.Instruction)
+	} else {
+		rm = an.CallsTo(fn, false, "store.Store.remove")[0].(ssa.Instruction)
+		via = rm
+	}
+	isRR := func(v ssa.Value) bool { return callResult(rz(v), 0, "store.Servers.IsReadReplica") }
+	found := func(v ssa.Value) bool { return callResult(rz(v), 1, "store.Servers.IsReadReplica") }
 	tmo := func(field string) func(ssa.Value) bool { return an.IsFieldLoad("Store", field) }
-	durOf := func(v ssa.Value) bool { return callResult(v, -1, "time.Since") }
+	durOf := func(v ssa.Value) bool { return callResult(rz(v), -1, "time.Since") }
 	type scen struct {
 		name                               string
 		rr, roSet, roExceeded, vSet, vExcd bool
@@ -383,8 +418,11 @@ func c32reap(c *core.Ctx) {
 			return
 		}
 		// "may reach" under assumptions: remove is a sink
-		hits := an.UngatedUnder(an.CutSpec{Fn: fn, Start: start, Sink: func(in ssa.Instruction) bool { return in == rm }}, assume)
+		hits := an.UngatedUnder(an.CutSpec{Fn: fn, Start: start, Sink: func(in ssa.Instruction) bool { return in == via }}, assume)
 		reach := len(hits) > 0
+		if reach && host != nil {
+			reach = len(an.UngatedUnder(an.CutSpec{Fn: host, Sink: func(in ssa.Instruction) bool { return in == rm }}, assume)) > 0
+		}
 		if reach != s.want {
 			bad = s.name
 		}
@@ -404,6 +442,20 @@ func c32reap(c *core.Ctx) {
 	for _, call := range an.CallsTo(fn, false, "store.Servers.IsReadReplica") {
 		st = call.(ssa.Instruction)
 	}
-	h := an.Ungated(an.CutSpec{Fn: fn, Start: st, GateEdge: gate, Sink: func(in ssa.Instruction) bool { return in == rm }})
+	if host != nil {
+		// the helper may test the "found" result it was handed
+		var hv []ssa.Value
+		for p, a := range bind {
+			if callResult(a, 1, "store.Servers.IsReadReplica") {
+				hv = append(hv, p)
+			}
+		}
+		if hg := an.SenseEdges(host, hv, an.IsTrue); len(hg) > 0 && len(gate) == 0 {
+			hh := an.Ungated(an.CutSpec{Fn: host, GateEdge: hg, Sink: func(in ssa.Instruction) bool { return in == rm }})
+			c.Result(len(hh) == 0, "C32.c", "DOM", "observe:reap-only-known-nodes", c.P.Pos(rm.Pos()), "only nodes found in the configuration are reaped", "a node not present in the configuration can be 'removed'", nil)
+			return
+		}
+	}
+	h := an.Ungated(an.CutSpec{Fn: fn, Start: st, GateEdge: gate, Sink: func(in ssa.Instruction) bool { return in == via }})
 	c.Result(len(gate) > 0 && len(h) == 0, "C32.c", "DOM", "observe:reap-only-known-nodes", c.P.Pos(rm.Pos()), "only nodes found in the configuration are reaped", "a node not present in the configuration can be 'removed'", nil)
 }
